@@ -138,8 +138,24 @@ def u1(prog, ctx):
                     hits.append(n2)
             visit.left = True
             return False
-        visit.left = False
-        cfg.feasible_reach(None, first_pass, lambda a: True, start=pos[0], accept=visit, init_facts={v: True, "=" + v: nokey}, start_index=pos[1] + 1)
+        # what is known when the call is reached in a round for a named section (e.g. `groups[g] != NULL`)
+        arrivals = []
+
+        def arrive(b, fd):
+            if b == pos[0]:
+                arrivals.append(dict(fd))
+            return False
+        cfg.feasible_reach(None, first_pass, lambda a: True, start=cfg.loop_body_entry(lp[0]), accept=arrive)
+        seen_f = set()
+        for fd0 in arrivals or [{}]:
+            fd0 = {k2: v2 for k2, v2 in fd0.items() if v not in k2}
+            key0 = frozenset(fd0.items())
+            if key0 in seen_f:
+                continue
+            seen_f.add(key0)
+            visit.left = False
+            fd0.update({v: True, "=" + v: nokey})
+            cfg.feasible_reach(None, first_pass, lambda a: True, start=pos[0], accept=visit, init_facts=fd0, start_index=pos[1] + 1)
         inst = "a section without keys does not end the listing"
         if hits:
             ctx.fail("U1", inst, hits[0].where,
